@@ -407,7 +407,7 @@ func runAdmit(id string, parts []string) string {
 						{Tag: "u", Protocol: "udp", Listen: fmt.Sprintf("127.0.0.1:%d", env.udpPort)},
 						{Tag: "t", Protocol: "tcp", Listen: tcpListen},
 						{Tag: "h", Protocol: "http", Listen: httpListen,
-							Http: router.HttpConfig{ClientAddrHeader: "X-Client"}},
+							Http: router.HttpConfig{ClientAddrHeader: "x-CLIENT"}}, // non-canonical spelling in the configuration; the clients send "X-Client"
 						{Tag: "q", Protocol: "quic", Listen: fmt.Sprintf("127.0.0.1:%d", env.quicPort),
 							Tls: router.TlsConfig{DebugUseTempCert: true}},
 					},
